@@ -25,6 +25,8 @@ type Case struct {
 	Mode     string   // "reader", "reset" (one Reader re-Reset per text), "files"
 	Paths    []int    // files mode: index of the text each path refers to (duplicates allowed)
 	Labels   []string // files mode: label for path i ("" = none)
+	NoLabels bool     // files mode: Files.AllowLabels is false (library use); paths are taken whole
+	EqNames  bool     // files mode: the file names contain '='
 	Preview  string   // first text, for the human reader only
 	// FailAfter[i] > 0: in reset mode, input i is delivered by a reader that
 	// returns an I/O error after that many bytes (or, if -1, contains a line of
@@ -417,6 +419,10 @@ func checkFiles(c Case, texts []string, v *vcase.Verdict) string {
 	var realPaths []string
 	for i, text := range texts {
 		p := filepath.Join(dir, fmt.Sprintf("f%d.txt", i))
+		if c.EqNames {
+			p = filepath.Join(dir, fmt.Sprintf("procs=%d.f%d.txt", i+1, i))
+			v.Label("eq_in_file_name")
+		}
 		if err := os.WriteFile(p, []byte(text), 0o644); err != nil {
 			return "VERIF-BROKEN " + err.Error()
 		}
@@ -428,16 +434,20 @@ func checkFiles(c Case, texts []string, v *vcase.Verdict) string {
 			return ""
 		}
 		p := realPaths[ti]
-		if i < len(c.Labels) && c.Labels[i] != "" {
+		if c.NoLabels {
+			v.Label("labels_disabled")
+		} else if i < len(c.Labels) && c.Labels[i] != "" {
 			p = c.Labels[i] + "=" + p
 			v.Label("labelled_path")
+		} else if c.EqNames {
+			p = "L=" + p // (an unlabelled path containing '=' would be split at it)
 		}
 		args = append(args, p)
 	}
 	if len(args) == 0 {
 		return ""
 	}
-	labels, reals := refbench.FileLabels(args, true)
+	labels, reals := refbench.FileLabels(args, !c.NoLabels)
 	seen := map[string]bool{}
 	for _, a := range args {
 		if seen[a] {
@@ -446,7 +456,7 @@ func checkFiles(c Case, texts []string, v *vcase.Verdict) string {
 		seen[a] = true
 	}
 	v.Label("multi_file")
-	files := &benchfmt.Files{Paths: args, AllowLabels: true}
+	files := &benchfmt.Files{Paths: args, AllowLabels: !c.NoLabels}
 	units := refbench.Units{}
 	var gots []got
 	for files.Scan() {
@@ -555,6 +565,8 @@ func Gen(t *rapid.T) Case {
 			c.Paths = append(c.Paths, rapid.IntRange(0, ntexts-1).Draw(t, "pathidx"))
 			c.Labels = append(c.Labels, rapid.SampledFrom([]string{"", "", "", "old", "new", "x#0", "é"}).Draw(t, "label"))
 		}
+		c.NoLabels = rapid.IntRange(0, 3).Draw(t, "nolabels") == 0
+		c.EqNames = rapid.IntRange(0, 2).Draw(t, "eqnames") == 0
 	}
 	pv := unhex(c.TextsHex[0])
 	if len(pv) > 300 {
